@@ -26,14 +26,16 @@ Queries == << "sum by (a) (m)", "m", "rate(m[3s])", "topk(1, m)", "m + on (a) gr
               "m @ end()", "sum(m @ start())", "sum_over_time(m[3s] @ end())", "m - m @ start()",
               \* name-dropping operators over a metric that hands over to another one (ho ends before ho2 begins): over a range
               \* the two are one series of the result, and what the engine did to find that out must not be seen by the next query
-              "abs({__name__=~\"ho|ho2\"})", "-{__name__=~\"ho|ho2|m\"}", "abs({a=~\"h|x\"})" >>
+              "abs({__name__=~\"ho|ho2\"})", "-{__name__=~\"ho|ho2|m\"}", "abs({a=~\"h|x\"})",
+              \* a metric that does not exist at first and comes into being with the first append of kind "late"
+              "late", "sum by (a) (late)", "m + on (a) group_left () late" >>
 \* kinds: ok = plain execution; cancel = executed with a context cancelled beforehand or midway; (failing / fallback
 \* queries are in the basket: index 8 fails with many-to-many, 9 and 10 take the fallback path)
 ExecKinds == {"ok", "ok", "cancel-before", "cancel-mid"}
 \* qlb: per-query lookback delta (promql.QueryOpts), 0 = none given: a query's options must not outlive the query
 Windows == << [start |-> 2, end |-> 2, step |-> 0, qlb |-> 0], [start |-> 1, end |-> 13, step |-> 1, qlb |-> 0], [start |-> 3, end |-> 25, step |-> 2, qlb |-> 0],
               [start |-> 2, end |-> 14, step |-> 1, qlb |-> 1], [start |-> 4, end |-> 4, step |-> 0, qlb |-> 9] >>
-AppendKinds == {"sample", "series", "stale", "gap"}
+AppendKinds == {"sample", "series", "stale", "gap", "late"}
 
 VARIABLES hist, results, basket
 vars == <<hist, results, basket>>
